@@ -110,3 +110,19 @@ def register(db):
         ],
         raises={}, properties=P,
     ))
+
+    # ------------------------------------------------------------------ proxy converter (Xml* types)
+    from pyvc.contracts import assume_method
+    assume_method(db, "Factory", "__call__", returns="u:Any", raises=["ValueError"], pure=True)
+
+    def proxy(mk, base):
+        return mk.obj(f"{CONV}:ProxyConverter", {"factory": "opaque:Factory"})
+
+    db.add(Contract(
+        f"{CONV}:ProxyConverter.deserialize",
+        params={"self": proxy, "value": "opaque:Any"}, kwargs={"known": {}, "open": False},
+        ensures=[("result-of-the-type-factory", "result == uf('Factory.__call__', 'u:Any', self.factory, value)")],
+        raises={"ConverterError": True},
+        properties=["C05", "C15"],
+        note="XmlDate/XmlTime/XmlDateTime.from_string, XmlDuration, XmlPeriod raise only ValueError (decided under C06)",
+    ))
